@@ -122,7 +122,7 @@ class Contract(object):
     def __init__(self, target, prop, args=None, requires=None, ensures=None, raises=None,
                  modifies=(), loops=None, params=None, assumed=False, inline=False,
                  decreases=None, ghost=None, result_type=None, note="", lemmas=(), reads_heap=True,
-                 block=None, pure_result=None, uses=(), returns=None, solver_hints=None, raises_not=None):
+                 block=None, pure_result=None, uses=(), returns=None, solver_hints=None, raises_not=None, result_name=None):
         self.target = target
         self.prop = prop
         self.args = args or {}
@@ -144,6 +144,9 @@ class Contract(object):
         # exception class -> ground statement about a normal return that *implies* "not raises[exc]"
         # (the implication itself is a lemma of the contracts module); used instead of the negated condition
         self.raises_not = raises_not or {}
+        # a pure, deterministic function (no heap, no global state: its C18 frame obligation) may have its result
+        # *named* by uninterpreted functions of its arguments at call sites, so that callers' contracts can refer to it
+        self.result_name = result_name
         self.solver_hints = solver_hints or {}   # obligation-name fragment -> {"cli_s": seconds, "only": "cvc5"}
 
 
@@ -202,6 +205,10 @@ class SpecCtx(object):
     def has_local(self, k):
         return k in self._extra or k in self._st.env
 
+    def final(self, k):
+        """value of local / parameter k at this point (parameters named in the contract denote entry values)"""
+        return self._st.env[k]
+
 
 class Obligation(object):
     def __init__(self, name, kind, pc, goal, info=None):
@@ -247,9 +254,9 @@ def feasible(pc):
     if QUICK_TIMEOUT_MS <= 0:
         return not z3.is_false(z3.simplify(pc[-1])) if pc else True
     s = z3.Solver()
-    s.set("timeout", QUICK_TIMEOUT_MS)
     s.add(*pc)
-    return s.check() != z3.unsat
+    from .solve import safe_check
+    return safe_check(s, QUICK_TIMEOUT_MS) != z3.unsat
 
 
 # ----------------------------------------------------------------------------
@@ -647,6 +654,23 @@ class Exec(object):
             items = self.unpack(v, len(tgt.elts), st)
             for t, x in zip(tgt.elts, items):
                 self.assign(t, x, st)
+            return
+        if isinstance(tgt, ast.Subscript) and isinstance(tgt.slice, ast.Slice):
+            base = self.ev(_load(tgt.value), st)
+            lo = self.ev(tgt.slice.lower, st) if tgt.slice.lower is not None else None
+            hi = self.ev(tgt.slice.upper, st) if tgt.slice.upper is not None else None
+            if not (isinstance(base, VList) and isinstance(lo, int) and isinstance(hi, int) and lo == hi and lo >= 0
+                    and tgt.slice.step is None):
+                raise Unsupported("slice assignment other than an insertion x[k:k] = [...] with constant k >= 0")
+            ins = self.iter_list(v, st, tgt)
+            if ins.conc is None:
+                raise Unsupported("insertion of a symbolic-length list")
+            m = len(ins.conc)
+            k = z3.If(base.n < lo, base.n, z3.IntVal(lo))          # CPython clamps the insertion point
+            new = VList(base.n + m, get=lambda i, base=base, ins=ins, k=k, m=m:
+                        vite(VBool(i < k), base.get(i), vite(VBool(i < k + m), ins.get(i - k), base.get(i - m))),
+                        et=base.et)
+            self.assign(tgt.value, new, st)
             return
         if isinstance(tgt, ast.Subscript):
             # heap: X.data['k'] = v
@@ -1250,6 +1274,10 @@ class Exec(object):
             return vite(VBool(v.isnone), "None", self.to_str(v.val, st, node))
         if isinstance(v, VBool):
             return VStr(z3.If(v.t, z3.StringVal("True"), z3.StringVal("False")))
+        if isinstance(v, VRec) and (v.cls + ".__str__") in self.repo.fns:
+            info = self.repo.fns[v.cls + ".__str__"]
+            c = Contract(target=v.cls + ".__str__", prop=self.c.prop, args={}, inline=True)
+            return self.inline_call(info, c, [v], {}, st, node)
         raise Unsupported("str() of %r" % (v,))
 
     def ev_Lambda(self, e, st):
@@ -1356,6 +1384,13 @@ class Exec(object):
     def call_class(self, q, args, kw, st, node):
         if q == "trees.trees.Label":
             return VRec("Label", {})
+        if q == "trees.transitions.Transition" and len(args) == 1:
+            # Transition.__init__(self, name): self.name = name   (checked against the real __init__ below)
+            init = self.repo.fns.get(q + ".__init__")
+            src = init.src if init is not None else ""
+            if "self.name = name" not in src or src.count("self.") != 1:
+                raise Unsupported("Transition.__init__ is no longer `self.name = name`")
+            return VRec(q, {"name": args[0]})
         if q == "trees.trees.Tree":
             raise Unsupported("Tree allocation (handled by contracts of allocating helpers)")
         raise Unsupported("class %s" % q)
@@ -1416,6 +1451,8 @@ class Exec(object):
         S2 = SpecCtx(self, st, old, bound)
         if c.returns is not None:
             res = c.returns(S2, *ordered)
+        elif c.result_name is not None:
+            res = named_result(c, ordered)
         else:
             if rt is None:
                 raise Unsupported("contract of %s has no result_type" % q)
@@ -1521,7 +1558,9 @@ class Exec(object):
             return VList(src.n, get=lambda i: VTuple([VInt(i), src.get(i)]), et=None)
         if name == "zip":
             a, b = [self.iter_list(x, st, node) for x in args]
-            return VList(z3.If(a.n < b.n, a.n, b.n), get=lambda i: VTuple([a.get(i), b.get(i)]), et=None)
+            z = VList(z3.If(a.n < b.n, a.n, b.n), get=lambda i: VTuple([a.get(i), b.get(i)]), et=None)
+            z.zip_of = (a, b)
+            return z
         if name == "reversed":
             a = self.iter_list(args[0], st, node)
             return VList(a.n, get=lambda i: a.get(a.n - 1 - i), et=a.et)
@@ -1572,6 +1611,12 @@ class Exec(object):
         if name == "dict":
             if not args and not kw:
                 return VRec("dict", {})
+            if len(args) == 1 and isinstance(args[0], VList) and getattr(args[0], "zip_of", None) is not None:
+                keys, vals = args[0].zip_of
+                if keys.conc is not None and all(isinstance(k, str) for k in keys.conc):
+                    # zip truncates to the shorter list: we need the values to cover all keys
+                    self.oblige(st, "safe.L%d.zip_covers_keys" % self.line(node), vals.n >= len(keys.conc), "safety")
+                    return VRec("dict", {k: vals.get(i) for i, k in enumerate(keys.conc)})
             raise Unsupported("dict(...)")
         if name == "isinstance":
             raise Unsupported("isinstance")
@@ -1660,6 +1705,14 @@ class Exec(object):
             reg.append((t, r, pre, suf))
             st.env["$splits"] = reg
             return VInt(r)
+        if meth == "split" and len(args) == 0:
+            self.trusted.add("str.split(): uninterpreted list py_wsplit(s); axioms: every piece is non-empty")
+            lst = spec_wsplit(VStr(t))
+            j = z3.Int(fresh_name("ws"))
+            st.assume(lst.n >= 0)
+            st.assume(z3.ForAll([j], z3.Implies(z3.And(0 <= j, j < lst.n), z3.Length(lst.get(j).t) > 0),
+                                patterns=[lst.get(j).t]))
+            return lst
         if meth == "split" and len(args) == 1 and isinstance(args[0], str) and len(args[0]) == 1:
             self.trusted.add("str.split(c): uninterpreted list py_split(s, c); axioms: at least one piece, no piece contains c")
             lst = spec_split(VStr(t), args[0])
@@ -1717,6 +1770,16 @@ def last_split_axioms(t, c):
 
 SPLIT_LEN = z3.Function("py_split_len", sym.StrS, sym.StrS, IntS)
 SPLIT_EL = z3.Function("py_split_el", sym.StrS, sym.StrS, IntS, sym.StrS)
+
+
+WSPLIT_LEN = z3.Function("py_wsplit_len", sym.StrS, IntS)
+WSPLIT_EL = z3.Function("py_wsplit_el", sym.StrS, IntS, sym.StrS)
+
+
+def spec_wsplit(s):
+    """the list s.split() (split at runs of whitespace) as a spec-level value"""
+    st_ = tostr(s)
+    return VList(WSPLIT_LEN(st_), get=lambda i: VStr(WSPLIT_EL(st_, i)), et=STR)
 
 
 def spec_split(s, sep):
@@ -1806,6 +1869,42 @@ def list_concat(a, b):
         return VList.from_py(a.conc + b.conc)
     n = a.n
     return VList(a.n + b.n, get=lambda i: vite(VBool(i < n), a.get(i), b.get(i - n)), et=a.et or b.et)
+
+
+def _arg_terms(ordered):
+    ts = []
+    for a in ordered:
+        a = lift(a) if not isinstance(a, V) else a
+        if isinstance(a, (VInt, VStr, VBool, VRef)):
+            ts.append(a.t)
+        elif isinstance(a, VRec) and a.cls == "params":
+            for k in sorted(a.fields["has"]):
+                ts.append(a.fields["has"][k] if z3.is_expr(a.fields["has"][k]) else z3.BoolVal(bool(a.fields["has"][k])))
+                v = a.fields["val"][k]
+                v = lift(v) if not isinstance(v, V) else v
+                if isinstance(v, (VInt, VStr, VBool)):
+                    ts.append(v.t)
+                else:
+                    raise Unsupported("result_name: option value of unsupported type")
+        else:
+            raise Unsupported("result_name: argument of unsupported type %r" % (a,))
+    return ts
+
+
+def named_result(c, ordered):
+    """the result of a pure deterministic function, named by uninterpreted functions of its arguments"""
+    ts = _arg_terms(ordered)
+    sorts = [t.sort() for t in ts]
+
+    def mk(ty, name):
+        if isinstance(ty, (TInt, TStr, TBool)):
+            f = z3.Function("%s_%s" % (c.result_name, name), *(sorts + [sym.sort_of(ty)]))
+            return sym.wrap_of(ty)(f(*ts))
+        if isinstance(ty, TRec):
+            return VRec("Label" if c.result_name == "py_parse_label" else "rec",
+                        {k: mk(t, name + "_" + k) for k, t in ty.fields.items()})
+        raise Unsupported("result_name for type %r" % (ty,))
+    return mk(c.result_type, "r")
 
 
 def slice_bounds(n, lo, hi):
